@@ -166,6 +166,7 @@ func vfExecute(t *testing.T, sc *vfScenario, trace bool) (res *vfResult) {
 			sim = vfNewSim(tape, p.maxSteps)
 			sim.traceOn = trace
 			sim.pct = sc.cfg("pct", 0) != 0
+			vfOptMix = uint64(sc.cfg("optmix", 0))
 			t0 := time.Now()
 			run := &vfRun{sc: sc, sim: sim, t: t, res: res}
 			func() {
@@ -670,6 +671,11 @@ func vfWorkerRun(t *testing.T, journal string) {
 			sc.Prop, sc.Class, sc.Seed = prop, class, seed
 			if sc.Cfg != nil && vfMix(seed, 0x9c7)%3 == 0 {
 				sc.Cfg["pct"] = 1 // a third of the runs use priority scheduling
+			}
+			if sc.Cfg != nil && vfMix(seed, 0x0b7)%2 == 0 {
+				// half of the runs hand the server its options in another order, some with an
+				// option that is a no-op on this platform mixed in
+				sc.Cfg["optmix"] = int64(1 + vfMix(seed, 0x0b8)%1000)
 			}
 			runOne(sc, idx)
 		}
